@@ -75,5 +75,11 @@ CHECKS = {
                      "REPORT bodies) made the server create, modify, delete, list or read anything that resolves outside the data root (static allow-list: interpreter, packages, "
                      "HOME, TMPDIR), the surroundings' snapshot was unchanged and no canary content appeared in a response.",
                 note="Trusted: CPython audit events cover the file-system calls the code makes (strace cross-checks this in the thorough tier); stat-only probes are not judged."),
+    "C11": dict(level="exploration", design="DESIGN.md section 4 C11 and Appendix A",
+                technique="runtime monitoring: differential oracle - an independent RFC 4791 9.7/9.9 evaluator (vf/caloracle.py, self-tested) judges every (query, object) pair of an exhaustive section-9.9 row x boundary grid and of generated filter trees against the real REPORT answers",
+                text="Held on the explored grid except for the recorded known finding (text-match is an equality test): for every row of the section 9.9 tables, every DTSTART value type "
+                     "and time-ranges placed one second before, on and after every key instant (with CALDAV:timezone variants), and for generated comp/prop/param filter trees, the REPORT "
+                     "returned exactly the objects the oracle accepts, with calendar-data equal to the resource.",
+                note="Trusted: vf/caloracle.py (written from the RFC, Appendix A) and vf/icl.py; automatic indexing is switched off here (index transparency is C10); server default timezone UTC."),
 }
 NOT_APPLICABLE = {}
